@@ -5,6 +5,8 @@ package main
 import (
 	"os"
 
+	"github.com/go-gts/flags"
+
 	"github.com/go-gts/gts"
 	"github.com/go-gts/gts/seqio"
 )
@@ -194,4 +196,93 @@ func VH_C14_key_completeness() {
 	vAssert("equal-key-equal-status", vImplies(same, ok1 == ok2))
 	vAssert("equal-key-equal-output", vImplies(same, vSameSeqs(o1, o2)))
 	vObserve("n1", len(o1))
+}
+
+// vRunReal: one invocation with the real scanner and the real writer (no queue/capture model): stdin bytes in,
+// stdout bytes and exit status out.
+func vRunReal(name string, fn flags.Function, args []string, stdin []byte, home string) ([]byte, bool) {
+	ctx := &flags.Context{Name: []string{"gts", name}, Args: args}
+	if vIsModel() {
+		vResetStdio(stdin)
+		err := fn(ctx)
+		closeCaches(err == nil)
+		out, _ := vFSRead("/dev/stdout")
+		return out, err == nil
+	}
+	dir := vTempDir()
+	if err := os.WriteFile(dir+"/in", stdin, 0o644); err != nil {
+		panic(err)
+	}
+	fin, err := os.Open(dir + "/in")
+	if err != nil {
+		panic(err)
+	}
+	fout, err := os.Create(dir + "/out")
+	if err != nil {
+		panic(err)
+	}
+	os.Setenv("XDG_CACHE_HOME", home)
+	cerr := func() error {
+		oldIn, oldOut := os.Stdin, os.Stdout
+		defer func() { os.Stdin, os.Stdout = oldIn, oldOut }()
+		os.Stdin, os.Stdout = fin, fout
+		err := fn(ctx)
+		closeCaches(err == nil)
+		return err
+	}()
+	fin.Close()
+	fout.Close()
+	out, _ := os.ReadFile(dir + "/out")
+	return out, cerr == nil
+}
+
+//verif:harness prop=C14 quick=2 thorough=4 merge=concrete models=term,hash,payload timeout=1500
+//verif:bounds secondary inputs through the real scanner and writer: gts insert (guest) and gts search (query) on a concrete FASTA host; history of two invocations over one cache directory, one with the literal argument @a (quick) / @ac (thorough) and one with a file of as many symbolic ASCII bytes (so also unparsable files and files that spell a literal), in either order; each compared with its --no-cache run
+//verif:assume in-memory file system, identity flate, uninterpreted digests without collisions between the inputs compared, payload encoding injective
+func VH_C14_secondary_input() {
+	sh := vShard(2 + 2*vTier())
+	home, gdir := "/cache-home", "/g"
+	if !vIsModel() {
+		home, gdir = vTempDir(), vTempDir()
+	}
+	litS := "@a"
+	if vTier() == 1 {
+		litS = "@ac"
+	}
+	content := vBytes("file", len(litS))
+	for _, c := range content {
+		vAssume(c < 128) // non-ASCII bytes reach utf8 decoding in bytes.ToLower (outside the engine's byte model)
+	}
+	path := gdir + "/guest"
+	if vIsModel() {
+		vFSWrite(path, content)
+	} else if err := os.WriteFile(path, content, 0o644); err != nil {
+		panic(err)
+	}
+	stdin := []byte(">h\nAAAATTTT\n")
+	name, fn := "insert", insertFunc
+	lit, file := []string{"5", litS}, []string{"5", path}
+	if sh%2 == 1 {
+		name, fn = "search", searchFunc
+		// FASTA output drops the annotations a search adds: the search shards read a GenBank record
+		stdin = []byte("LOCUS       X                          8 bp    DNA     linear   UNK 01-JAN-2000\nDEFINITION  d.\nACCESSION   A\nVERSION     A.1\nKEYWORDS    .\nSOURCE      s\n  ORGANISM  o\n            t.\nFEATURES             Location/Qualifiers\n     source          1..8\n                     /mol_type=\"x\"\nORIGIN      \n        1 aaaatttt\n//\n")
+		lit, file = []string{litS}, []string{path}
+	}
+	h := [][]string{lit, file}
+	if sh >= 2 {
+		h = [][]string{file, lit}
+	}
+	var baseOut [][]byte
+	var baseOK []bool
+	for _, args := range h {
+		out, ok := vRunReal(name, fn, append([]string{"--no-cache"}, args...), stdin, home)
+		baseOut, baseOK = append(baseOut, out), append(baseOK, ok)
+	}
+	vCover("baseline")
+	for k, args := range h {
+		out, ok := vRunReal(name, fn, args, stdin, home)
+		vAssert("same-exit-status", ok == baseOK[k])
+		vAssert("same-output", vSameB(out, baseOut[k]))
+	}
+	vObserve("len", len(baseOut[0]))
 }
